@@ -115,6 +115,8 @@ type workerOut struct {
 	BubbleDeadlocks int               `json:"bubble_deadlocks"`
 	KindCount       map[string]int64  `json:"kind_count"`
 	Extra           map[string]int64  `json:"extra"`
+	Survey          map[string]int    `json:"survey"`
+	SurveyMsg       map[string]string `json:"survey_msg"`
 }
 
 func die2(format string, a ...interface{}) {
@@ -327,6 +329,28 @@ func run(id string, cfg propCfg, tier string, seed uint64, replay, scratch strin
 	}
 	if len(tot.Samples) > 3 {
 		tot.Samples = tot.Samples[:3]
+	}
+	if os.Getenv("VERIF_SURVEY") != "" {
+		// development aid: list every violation fingerprint with a count and one example (no minimisation)
+		sv, sm := map[string]int{}, map[string]string{}
+		for _, o := range outs {
+			for k, v := range o.Survey {
+				sv[k] += v
+				if _, ok := sm[k]; !ok {
+					sm[k] = o.SurveyMsg[k]
+				}
+			}
+		}
+		keys := make([]string, 0, len(sv))
+		for k := range sv {
+			keys = append(keys, k)
+		}
+		sort.Strings(keys)
+		for _, k := range keys {
+			fmt.Printf("SURVEY %6d %s\n        %s\n", sv[k], k, sm[k])
+		}
+		fmt.Printf("survey: runs=%d distinct fingerprints=%d known=%v\n", tot.Runs, len(keys), tot.Known)
+		return 0
 	}
 	// quick determinism spot check: the same seeds in two fresh processes at different GOMAXPROCS
 	if !cfg.Race {
